@@ -26,6 +26,11 @@ Definition plain_equiv (x y : plain) : Prop :=
 Definition plain_wf (p : plain) : Prop :=
   forall a k, acc_get p a = None -> stor_get p a k = 0.
 
+(* the account table holds infos without their byte code (the code lives in the contracts table;
+   apply_changeset / plain_step only ever write such infos) *)
+Definition plain_nocode (p : plain) : Prop :=
+  forall a i, acc_get p a = Some i -> i_code i = None.
+
 (* ---- apply_changeset: write infos / delete accounts, wipe storage when flagged, write slots *)
 Definition apply_account (cur : option info) (c : option (option info)) : option info :=
   match c with
